@@ -77,7 +77,7 @@ def universe(draw, kinds=('int', 'str', 'tuple', 'fset', 'mixed'), lo=3, hi=6):
     return [pool[i] for i in idx]
 
 
-BASES = [0, 0, 1, -7, 1000, -10 ** 6, 10 ** 9]
+BASES = [0, 0, 1, -7, -3, 1000, -10 ** 6, 10 ** 9, 2 ** 70]     # -3 / -7 straddle 0, -1, -2; 2**70 is beyond machine words
 
 ATTR_VALUES = st.recursive(
     st.one_of(st.integers(-3, 3), st.sampled_from(['x', 'y', '', 'A']), st.none(), st.booleans()),
@@ -284,4 +284,7 @@ def tiered(tier, **kw):
     lo, hi = kw.get('uni', (3, 6))
     big['uni'] = (lo, min(8, hi + 2))
     big['maxlen'] = kw.get('maxlen', 4) + 2
-    return st.one_of(small, small, small, history(**big), history(**big), long_tl)
+    # ... and one case in eight is 'extra large': 9-12 integer nodes, up to 24 calls, spans of up to 40 instants
+    xl = dict(kw)
+    xl.update(max_ops=24, min_ops=8, uni=(9, 12), node_kinds=('int',), maxlen=40, horizon=30)
+    return st.one_of(small, small, small, history(**big), history(**big), long_tl, long_tl, history(**xl))
